@@ -53,15 +53,20 @@ TDec == /\ Ev("dec") /\ cok
                 [] r.k = "Err" -> IF R.n >= Len(cbytes) THEN R.res = "err" ELSE R.res \in {"err", "none"}
         /\ UNCHANGED <<cpdu, cbytes, cok>>
 
+(* code of the i-th element of a run-length coded sequence (no expansion) *)
+RECURSIVE CodeAt(_, _)
+CodeAt(rl, i) == IF i <= Head(rl)[1] THEN Head(rl)[2] ELSE CodeAt(Tail(rl), i - Head(rl)[1])
+RECURSIVE RLLen(_)
+RLLen(rl) == IF rl = <<>> THEN 0 ELSE Head(rl)[1] + RLLen(Tail(rl))
+
 TPrefixes ==
   /\ Ev("prefixes") /\ cok
-  /\ LET codes == RLExpand(R.codes_rl) IN
-     /\ Len(codes) = Len(cbytes)
-     /\ \A n \in 0..(Len(cbytes) - 1) :
-          LET r == ReadPduN(cbytes, n, R.max, R.strict) IN
-          CASE r.k = "Incomplete" -> codes[n + 1] = 0
-            [] r.k = "Err" -> codes[n + 1] \in {0, 1}
-            [] OTHER -> FALSE
+  /\ RLLen(R.codes_rl) = Len(cbytes)
+  /\ \A n \in 0..(Len(cbytes) - 1) :
+       LET r == ReadPduN(cbytes, n, R.max, R.strict) IN
+       CASE r.k = "Incomplete" -> CodeAt(R.codes_rl, n + 1) = 0
+         [] r.k = "Err" -> CodeAt(R.codes_rl, n + 1) \in {0, 1}
+         [] OTHER -> FALSE
   /\ UNCHANGED <<cpdu, cbytes, cok>>
 
 TNext == TEnc \/ TBig \/ TDec \/ TPrefixes
